@@ -269,6 +269,18 @@ func AltRep(targets map[string]int, nbits int) *HintStrategy {
 	}}
 }
 
+// ExplicitDigits answers the n-digit decomposition of exactly the value v with the given digits (any field
+// elements); every other call stays honest. The digit vector belongs to a witness built for it.
+func ExplicitDigits(name string, nbits int, v *big.Int, digits []*big.Int) *HintStrategy {
+	key := v.String()
+	return &HintStrategy{Name: name, NBitsForge: func(n int, x *big.Int) []*big.Int {
+		if n != nbits || x.String() != key || len(digits) != n {
+			return nil
+		}
+		return digits
+	}}
+}
+
 // NonBoolean forges a decomposition whose weighted sum is right but which carries a digit 2
 // (…,2,0,… instead of …,0,1,…), for every n-bit decomposition where that is possible.
 func NonBoolean(nbits int) *HintStrategy {
